@@ -26,8 +26,8 @@ func init() {
 				n = 25000
 			}
 			return fw.Meta{N: n, Level: "exploration", Chunk: 10, CaseTimeoutS: 300, MinNT: 150,
-				Rule:        "one case = a stack of 1..6 real tables over a universe of 3..30 keys (optionally incl. the empty key) with arbitrarily overlapping key sets, unique values per (table,key), tombstones (nil) over values and values over tombstones, some empty values, empty tables; index loader default/disk/skiplist/slice by case; model = apply tables oldest->newest. Checked: stacked Get/Contains on all keys+neighbours, Scan, ScanStartingAt and ScanRange for probe samples, MergeCompact with both provided reductions into a real writer (read back), MergeCompactIterator, and plain Merge on a disjoint re-partition. Non-trivial: >=3 tables sharing >=1 key with differing values and >=1 tombstone-over-value; distinct by content hash",
-				MinObs:      map[string]int64{"stacked_gets": 10000, "stacked_scans": 3000, "compacting_merges": 500, "plain_merges": 200, "stacks_with_empty_key": 50, "tombstone_over_value": 500, "value_over_tombstone": 300, "same_key_in_3plus_tables": 300},
+				Rule:        "one case = a stack of 1..6 real tables over a universe of 3..30 keys (optionally incl. the empty key) with arbitrarily overlapping key sets, unique values per (table,key), tombstones (nil) over values and values over tombstones, some empty values, empty tables; index loader default/disk/skiplist/slice by case, half of the skip-list-loader stacks ordered by a DESCENDING comparator (writer, loader, stacked reader and merger all get it); model = apply tables oldest->newest. Checked: stacked Get/Contains on all keys+neighbours, Scan, ScanStartingAt and ScanRange for probe samples, pairs of scans alive at the same time (lock-step and later-drained-first), MergeCompact with both provided reductions into a real writer (read back), MergeCompactIterator, and plain Merge on a disjoint re-partition. Non-trivial: >=3 tables sharing >=1 key with differing values and >=1 tombstone-over-value; distinct by content hash",
+				MinObs:      map[string]int64{"stacked_gets": 10000, "stacked_scans": 3000, "compacting_merges": 500, "plain_merges": 200, "stacks_with_empty_key": 50, "tombstone_over_value": 500, "value_over_tombstone": 300, "same_key_in_3plus_tables": 300, "stacks_ordered_by_a_descending_comparator": 30, "simultaneous_scan_pairs": 500},
 				Assumptions: []string{"tombstone = nil value; the skip-tombstones reduction additionally drops empty values (as documented)", "a merged table is compared after filtering nil values from its read-back, so both 'tombstones dropped' and 'tombstones kept' outputs are accepted for the latest-wins reduction"},
 			}
 		},
@@ -35,11 +35,19 @@ func init() {
 	})
 }
 
+// descCmp orders byte keys descending: a consistent comparator whose order differs from the byte-wise one
+type descCmp struct{}
+
+func (descCmp) Compare(a, b []byte) int { return bytes.Compare(b, a) }
+
+// c08Cmp is the key comparator of all tables of a case
+var c08Cmp skiplist.Comparator[[]byte] = skiplist.BytesComparator{}
+
 func c08WriteTable(dir string, kvs []kv) error {
 	if err := os.MkdirAll(dir, 0755); err != nil {
 		return err
 	}
-	w, err := sstables.NewSSTableStreamWriter(sstables.WriteBasePath(dir), sstables.WithKeyComparator(skiplist.BytesComparator{}), sstables.WriteBufferSizeBytes(4096))
+	w, err := sstables.NewSSTableStreamWriter(sstables.WriteBasePath(dir), sstables.WithKeyComparator(c08Cmp), sstables.WriteBufferSizeBytes(4096))
 	if err != nil {
 		return err
 	}
@@ -59,12 +67,12 @@ func c08WriteTable(dir string, kvs []kv) error {
 var c08Loader = ""
 
 func c08Open(dir string) (sstables.SSTableReaderI, error) {
-	opts := []sstables.ReadOption{sstables.ReadBasePath(dir), sstables.ReadWithKeyComparator(skiplist.BytesComparator{})}
+	opts := []sstables.ReadOption{sstables.ReadBasePath(dir), sstables.ReadWithKeyComparator(c08Cmp)}
 	switch c08Loader {
 	case "disk":
 		opts = append(opts, sstables.ReadIndexLoader(&sstables.DiskIndexLoader{}))
 	case "skiplist":
-		opts = append(opts, sstables.ReadIndexLoader(&sstables.SkipListIndexLoader{KeyComparator: skiplist.BytesComparator{}, ReadBufferSize: 4096}))
+		opts = append(opts, sstables.ReadIndexLoader(&sstables.SkipListIndexLoader{KeyComparator: c08Cmp, ReadBufferSize: 4096}))
 	case "slice":
 		opts = append(opts, sstables.ReadIndexLoader(&sstables.SliceKeyIndexLoader{ReadBufferSize: 4096}))
 	}
@@ -76,6 +84,14 @@ func runC08(c *fw.Case) {
 	c08Loader = []string{"", "disk", "skiplist", "slice"}[c.Idx%4] // cases of one child run sequentially
 	c.Obs("stacks_with_loader_"+map[string]string{"": "default"}[c08Loader]+c08Loader, 1)
 	c.HashAdd("loader", c08Loader)
+	// half of the stacks read through the skip-list loader (the one that takes a comparator) are ordered DESCENDING
+	c08Cmp = skiplist.BytesComparator{}
+	if c08Loader == "skiplist" && r.Intn(2) == 0 {
+		c08Cmp = descCmp{}
+		c.Obs("stacks_ordered_by_a_descending_comparator", 1)
+		c.HashAdd("desc")
+	}
+	kc := func(a, b []byte) int { return c08Cmp.Compare(a, b) }
 	nk := 3 + r.Intn(28)
 	universe := gen.AscendingKeys(r, nk, gen.Pick(r, 0, 1, 3, 4))
 	hasEmptyKey := false
@@ -87,6 +103,7 @@ func runC08(c *fw.Case) {
 	if len(universe[0]) == 0 {
 		hasEmptyKey = true
 	}
+	sort.SliceStable(universe, func(i, j int) bool { return kc(universe[i], universe[j]) < 0 })
 	nt := 1 + r.Intn(6)
 	tables := make([][]kv, nt)
 	model := map[string][]byte{}
@@ -149,7 +166,7 @@ func runC08(c *fw.Case) {
 	for k := range model {
 		sortedKeys = append(sortedKeys, k)
 	}
-	sort.Strings(sortedKeys)
+	sort.Slice(sortedKeys, func(i, j int) bool { return kc([]byte(sortedKeys[i]), []byte(sortedKeys[j])) < 0 })
 	// expected scan content: tombstoned keys omitted
 	var live []kv
 	for _, k := range sortedKeys {
@@ -186,7 +203,7 @@ func runC08(c *fw.Case) {
 		readers = append(readers, rd)
 	}
 	defer closeAll()
-	cmp := skiplist.BytesComparator{}
+	cmp := c08Cmp
 	super := sstables.NewSuperSSTableReader(readers, cmp)
 
 	// probes
@@ -201,7 +218,7 @@ func runC08(c *fw.Case) {
 	for p := range probeSet {
 		probes = append(probes, []byte(p))
 	}
-	sort.Slice(probes, func(i, j int) bool { return bytes.Compare(probes[i], probes[j]) < 0 })
+	sort.Slice(probes, func(i, j int) bool { return kc(probes[i], probes[j]) < 0 })
 	for _, p := range probes {
 		c.Obs("stacked_gets", 1)
 		want, ok := model[string(p)]
@@ -254,7 +271,7 @@ func runC08(c *fw.Case) {
 	rng := func(lo, hi []byte, useHi bool) []kv {
 		var out []kv
 		for _, e := range live {
-			if bytes.Compare(e.k, lo) >= 0 && (!useHi || bytes.Compare(e.k, hi) <= 0) {
+			if kc(e.k, lo) >= 0 && (!useHi || kc(e.k, hi) <= 0) {
 				out = append(out, e)
 			}
 		}
@@ -264,6 +281,69 @@ func runC08(c *fw.Case) {
 	c.Obs("stacked_scans", 1)
 	if !cmpScan("stacked Scan()", it, err, live, "stack/scan") {
 		return
+	}
+	// two scans of the same stack alive at the same time, drained in lock step: neither may disturb the other
+	{
+		itA, errA := super.Scan()
+		itB, errB := super.ScanStartingAt(probes[0])
+		c.Obs("stacked_scans", 2)
+		if errA != nil || errB != nil {
+			c.Violate("stack/scan-error"+feat, "%s: two simultaneous scans: %v / %v", desc, errA, errB)
+			return
+		}
+		var gotA, gotB []kv
+		doneA, doneB := false, false
+		for n := 0; !(doneA && doneB) && n < 2*len(universe)*nt+8; n++ {
+			step := func(it sstables.SSTableIteratorI, got *[]kv, done *bool, which string) bool {
+				if *done {
+					return true
+				}
+				k, v, err := it.Next()
+				if errors.Is(err, sstables.Done) {
+					*done = true
+					return true
+				}
+				if err != nil {
+					c.Violate("stack/simultaneous-scans-iter-error"+feat, "%s: scan %s of two simultaneous scans failed after %d entries: %v", desc, which, len(*got), err)
+					return false
+				}
+				*got = append(*got, kv{append([]byte{}, k...), append([]byte(nil), v...)})
+				if v != nil && (*got)[len(*got)-1].v == nil {
+					(*got)[len(*got)-1].v = []byte{}
+				}
+				return true
+			}
+			if !step(itA, &gotA, &doneA, "A") || !step(itB, &gotB, &doneB, "B") {
+				return
+			}
+		}
+		wantB := rng(probes[0], nil, false)
+		if d := sameKVs(gotA, live); d != "" {
+			c.Violate("stack/simultaneous-scans-mismatch"+feat, "%s: first of two simultaneous scans: %s", desc, d)
+			return
+		}
+		if d := sameKVs(gotB, wantB); d != "" {
+			c.Violate("stack/simultaneous-scans-mismatch"+feat, "%s: second of two simultaneous scans: %s", desc, d)
+			return
+		}
+		// and two FULL scans side by side
+		it1, err1 := super.Scan()
+		it2, err2 := super.Scan()
+		if err1 != nil || err2 != nil {
+			c.Violate("stack/scan-error"+feat, "%s: two simultaneous full scans: %v / %v", desc, err1, err2)
+			return
+		}
+		g2, e2 := drainSST(it2, len(universe)*nt+2)
+		g1, e1 := drainSST(it1, len(universe)*nt+2)
+		if e1 != nil || e2 != nil {
+			c.Violate("stack/simultaneous-scans-iter-error"+feat, "%s: two full scans opened together, the later drained first: %v / %v", desc, e1, e2)
+			return
+		}
+		if d := sameKVs(g1, live) + sameKVs(g2, live); d != "" {
+			c.Violate("stack/simultaneous-scans-mismatch"+feat, "%s: two full scans opened together: %s", desc, d)
+			return
+		}
+		c.Obs("simultaneous_scan_pairs", 2)
 	}
 	for i := 0; i < 8; i++ {
 		p := probes[r.Intn(len(probes))]
@@ -276,7 +356,7 @@ func runC08(c *fw.Case) {
 	for i := 0; i < 12; i++ {
 		lo := probes[r.Intn(len(probes))]
 		hi := probes[r.Intn(len(probes))]
-		if bytes.Compare(lo, hi) > 0 {
+		if kc(lo, hi) > 0 {
 			lo, hi = hi, lo
 		}
 		it, err := super.ScanRange(lo, hi)
